@@ -25,6 +25,12 @@ type c12 struct {
 }
 
 func checkC12(c *Ctx) {
+	c12run(c, true)
+}
+
+// c12run: the C12 analyses; withTree also runs the envelope premise and the vacuity floors (the
+// property's own check), without it only the query models (another property's premise).
+func c12run(c *Ctx, withTree bool) {
 	c.Rule("C12.R1", "model evaluation of NearestNeighbors(k, p) on hand-built trees (one leaf; two and three leaves; two inner nodes over three leaves) with the two point-to-box bounds replaced by tables: for every weak ordering of the object distances, every admissible choice of inner MINDIST (tight, lower, zero) and MINMAXDIST (tight, largest in the subtree, beyond everything) and k ∈ {1, 2, n, n+1}, the result has k slots, the first min(k, n) hold distinct stored objects whose distances are the smallest ones in non-decreasing order, the rest are nil")
 	c.Rule("C12.R2", "model evaluation of NearestNeighbor(p) on the same trees and bound tables, distance orderings without ties: the object returned is the one at the least distance (every leaf entry is looked at, no subtree holding the nearest object is skipped)")
 	c.Rule("C12.R3", "the same with ties (several objects, possibly in different subtrees, at the same distance): an object at the least distance is returned — exclusion by the MINMAXDIST bound must not be strict")
@@ -57,6 +63,9 @@ func checkC12(c *Ctx) {
 	fMin, fMM := c12formulas(c, p, a.bounds)
 	c12model(c, p, fMin, fMM)
 	c12scales(c, "C12.R4")
+	if !withTree {
+		return
+	}
 	// R5: exact envelopes (shared with C11)
 	c11model(c, map[string]string{"envelopes": "C12.R5", "parent-links": "C12.R5", "no-panic": "C12.R5"})
 	c.Floor("C12.R4", 1)
